@@ -779,6 +779,10 @@ impl<'w> Ctx<'w> {
         if sig.uses_w {
             return Err("call of a function over the abstract writer".into());
         }
+        if sig.uses_merge {
+            self.used_merge = true;
+            argv.insert(0, "merge".into());
+        }
         if sig.uses_step {
             self.used_step = true;
             argv.insert(0, "step".into());
